@@ -122,6 +122,8 @@ def role_table_of(f: FuncInfo, dsnames):
 
 def check(run):
     P = run.program
+    from ..rules import consts as _consts
+    _consts.check(run, P)
     run.explanation = (
         "F-TABLE: literals returned by _parse_grid_type, literals tested in Grid.from_dataset and the reader each branch calls are compared with the frozen "
         "format->reader-module map.  F-CONN: a typestate interpreter (uxsa/rules/conn.py) starts every source connectivity variable in the state its FORMAT "
@@ -153,6 +155,8 @@ def check(run):
     _xyz_helpers(run, P)
     _readers_normalise(run, P)
     _polygon_rings(run, P)
+    _open_grid_kwargs(run, P)
+    _icon_layout(run, P)
 
 
 # ------------------------------------------------------------------------------------------------ dispatch
@@ -719,4 +723,75 @@ def _polygon_rings(run, P):
             run.holds("F-SRC/polygon-exterior", c, "-", f"{n_ext} reads of <polygon>.exterior.coords; no extraction that returns all rings")
         else:
             run.incomplete("F-SRC/polygon-exterior", c, "-", "no read of <polygon>.exterior.coords found in the GeoDataFrame reader: how polygon vertices are extracted is not recognised")
+
+
+def _open_grid_kwargs(run, P):
+    """open_grid hands the caller's keyword arguments to xarray.open_dataset as they are: the readers rely on xarray's own defaults (CF decoding: scale_factor/add_offset,
+    masking, decode_times).  A default injected there (`kwargs.setdefault("mask_and_scale", False)`, `decode_cf=False`) changes what every reader receives."""
+    f = P.func("uxarray/core/api.py:open_grid")
+    c = f"{f.key}:kwargs-unchanged"
+    kw = f.node.args.kwarg.arg if f.node.args.kwarg else None
+    calls = [x for x in ast.walk(f.node) if isinstance(x, ast.Call) and (dotted(x.func) or [""])[-1] in ("open_dataset", "open_mfdataset") and (dotted(x.func) or [""])[0] in ("xr", "xarray")]
+    if kw is None or not calls:
+        run.incomplete("F-SIG/open-kwargs", c, where(f), "open_grid has no **kwargs or does not call xarray.open_dataset")
+        return
+    muts = []
+    for x in ast.walk(f.node):
+        if isinstance(x, ast.Call) and isinstance(x.func, ast.Attribute) and isinstance(x.func.value, ast.Name) and x.func.value.id == kw and x.func.attr in ("setdefault", "update", "pop", "clear", "__setitem__"):
+            muts.append(x)
+        if isinstance(x, (ast.Assign, ast.AugAssign)):
+            for t in (x.targets if isinstance(x, ast.Assign) else [x.target]):
+                if isinstance(t, ast.Subscript) and isinstance(t.value, ast.Name) and t.value.id == kw:
+                    muts.append(x)
+                if isinstance(t, ast.Name) and t.id == kw:
+                    muts.append(x)
+    extra = [k for cl in calls for k in cl.keywords if k.arg in ("mask_and_scale", "decode_cf", "decode_times", "decode_coords", "use_cftime", "concat_characters")]
+    if muts or extra:
+        what = norm(muts[0])[:60] if muts else f"{extra[0].arg}={norm(extra[0].value)}"
+        run.violation("F-SIG/open-kwargs", c, where(f, muts[0] if muts else calls[0]), f"open_grid changes the decoding options it passes to xarray ({what}): packed or masked variables of a grid file reach the readers "
+                      "as raw stored values")
+    elif all(any(k.arg is None and norm(k.value) == kw for k in cl.keywords) for cl in calls):
+        run.holds("F-SIG/open-kwargs", c, where(f, calls[0]), "**kwargs handed to xarray unchanged")
+    else:
+        run.incomplete("F-SIG/open-kwargs", c, where(f, calls[0]), "the caller's keyword arguments are not passed as **kwargs")
+
+
+def _icon_layout(run, P):
+    """ICON stores its connectivity tables entry-major, (n_entries, n_elements); the Grid wants (n_elements, n_entries).  The reader transposes every table exactly once and
+    unconditionally: a transposition decided by comparing the two extents misreads a table with at most as many elements as entries (3 cells x 3 vertices is square,
+    2 cells are "wider than long")."""
+    n = 0
+    for f in P.all_functions():
+        if f.module.relpath != f"{IO}_icon.py":
+            continue
+        tr = []
+
+        def walk(stmts, guards):
+            for st in stmts:
+                if isinstance(st, ast.If):
+                    walk(st.body, guards + [st.test])
+                    walk(st.orelse, guards + [st.test])
+                elif isinstance(st, (ast.For, ast.While, ast.With, ast.Try)):
+                    for fld in ("body", "orelse", "finalbody"):
+                        walk(getattr(st, fld, []) or [], guards)
+                else:
+                    for x in ast.walk(st):
+                        if (isinstance(x, ast.Attribute) and x.attr == "T") or (isinstance(x, ast.Call) and (dotted(x.func) or [""])[-1] in ("transpose", "swapaxes")):
+                            tr.append((st, x, guards))
+        walk(f.node.body, [])
+        if not tr:
+            continue
+        for st, x, guards in tr:
+            n += 1
+            c = f"{f.key}:transposition"
+            shape_guard = next((g for g in guards if any(isinstance(y, ast.Attribute) and y.attr in ("shape", "ndim", "size") for y in ast.walk(g))), None)
+            if shape_guard is not None:
+                run.violation("F-CONN/icon-layout", c, where(f, st), f"the ICON tables are transposed only when `{norm(shape_guard)[:50]}`: the layout is guessed from the extents, so a grid with no more cells than "
+                              "entries per cell keeps the file's entry-major layout")
+            elif guards:
+                run.incomplete("F-CONN/icon-layout", c, where(f, st), f"transposition under `{norm(guards[-1])[:50]}`")
+            else:
+                run.holds("F-CONN/icon-layout", c, where(f, st), "entry-major file tables transposed unconditionally")
+    if n == 0:
+        run.incomplete("F-CONN/icon-layout", f"{IO}_icon.py:transposition", f"{IO}_icon.py", "no transposition (.T / transpose / swapaxes) of the ICON connectivity tables found: how the file's (n_entries, n_elements) layout is turned is not recognised")
 
